@@ -1,8 +1,8 @@
 SPECIFICATION Spec
 CONSTANTS
   Repaired = TRUE
-  ShapeSet = {"one", "dflt", "anon", "hidden"}
-  QuxSet = {"disabled", "anon"}
+  ShapeSet = {"one", "dflt", "anon", "hidden", "deep"}
+  QuxSet = {"disabled", "anon", "twin"}
   FooArgSet = {"reqdfl", "dflmul"}
   FooOptSet = {"optmul", "nodescdfl"}
   SubArgSet = {"none", "nodescdfl"}
